@@ -669,6 +669,7 @@ static PyObject* base_gemv(PyObject *self, PyObject *args, PyObject *kwrds)
   if (n > 0 && m > 0 && (int_t)oA + (n-1)*(int_t)MAX(1,X_NROWS(A)) + m >
   X_NROWS(A)*X_NCOLS(A))
     err_buf_len("A");
+  if (Matrix_Check(A) && m > MAX(1,X_NROWS(A))) err_buf_len("A");
 
   if (ox < 0) err_nn_int("offsetx");
   if ((trans == 'N' && n > 0 && (int_t)ox + (n-1)*labs((long)ix) + 1 > MAT_LGT(x)) ||
@@ -926,6 +927,7 @@ static PyObject* base_symv(PyObject *self, PyObject *args, PyObject *kwrds)
 
   if (oA < 0) err_nn_int("offsetA");
   if (oA + (n-1)*(int_t)ldA + n > len(A)) err_buf_len("A");
+  if (Matrix_Check(A) && n > ldA) err_buf_len("A");
   if (ox < 0) err_nn_int("offsetx");
   if (ox + (n-1)*labs((long)ix) + 1 > len(x)) err_buf_len("x");
   if (oy < 0) err_nn_int("offsety");
